@@ -86,7 +86,12 @@ def replay_script(ctx, prop, ob, res):
              for k, v in pred.items() if k in out and out[k] != v}
     rep["engine"] = {k: v for k, v in pred.items() if k.startswith("call")}
     rep["compared_locations"] = len([k for k in pred if k in out])
-    if diffs:
+    ext = sorted({d.name() for d in model.decls() if d.name().startswith("external.")})
+    if diffs and ext:
+        # results of functions outside the exported program are unconstrained symbols: the model is not a concrete input
+        rep.update(status="unconfirmed", diffs=dict(list(diffs.items())[:10]),
+                   reason="the failing path calls unmodelled external function(s); the model is not a concrete input")
+    elif diffs:
         rep.update(status="engine-disagreement", diffs=dict(list(diffs.items())[:10]))
     elif rep["compared_locations"] == 0:
         rep.update(status="unconfirmed", reason="nothing to compare")
